@@ -49,13 +49,13 @@ Lemma cols_len sy n : length sy = n -> length (colsL sy n) = n - countB sy.
 Proof. apply rows_len. Qed.
 
 Section Top.
-Variables (courses : list course) (parts : list participant) (pick : node -> list bool -> assignment -> list node).
+Variables (courses : list course) (parts : list participant) (rgate : node -> assignment -> out (option (list node))) (pick : node -> list bool -> assignment -> list node).
 Notation np := (np parts). Notation nc := (nc courses). Notation m_ := (m_ courses). Notation n_ := (n_ courses parts).
 Notation crs := (crs courses). Notation instructs := (instructs courses).
 Hypothesis Hinstr_rng : forall c i, c < nc -> In i (c_instr (crs c)) -> i < np.
 Hypothesis Hone : forall p c c', c < nc -> c' < nc -> instructs p c = true -> instructs p c' = true -> c = c'.
 
-Definition run := run_node courses parts HP1.hungarian pick.
+Definition run := run_node courses parts HP1.hungarian rgate pick.
 
 Lemma np_le_n : np <= n_. Proof. unfold Cao1.n_. lia. Qed.
 
@@ -89,6 +89,8 @@ Proof.
   pose proof (hungarian_partial (adjacency courses parts) (dummy_x courses parts) my sx sy n_ m_ Hsq) as HP.
   destruct (hungarian (adjacency courses parts) (dummy_x courses parts) my sx sy n_ m_) as [[[[mm ms] lx] ly]| |]; try discriminate.
   destruct HP as (Hpm & _).
+  destruct (rgate nd _) as [[bs|]|site|]; try discriminate.
+  destruct (negb _ && existsb _ (seq 0 nc)); [discriminate|].
   destruct (existsb (wrong_course parts sx _) (seq 0 np) || existsb (min_violation courses parts nd sx _) (seq 0 nc)) eqn:Gate; [discriminate|].
   apply orb_false_iff in Gate. destruct Gate as [Gw Gm].
   intros H. inversion H; subst a s. clear H.
